@@ -367,4 +367,229 @@ example : parseHost [91, 0x3A, 0x3A, 0x31, 93, 58, 56, 48] = ([0x3A, 0x3A, 0x31]
     whereas the byte-level model `Uri.parseHost` drops one byte and leaves the lone lead byte C3 -/
 theorem parseHost_bytes_differs_witness :
     (parseHost [91, 233]).1 = [] ∧ (Uri.parseHost (U8.encode [91, 233])).1 = [0xC3] := by decide
+
+/-! ### the check-escaped encoders on the str -/
+
+/-- the UTF-8 bytes of an ASCII string are its characters -/
+theorem encode_ascii (s : Str) (h : ∀ c ∈ s, c < 0x80) : U8.encode s = s.map Nat.toUInt8 := by
+  induction s with
+  | nil => rfl
+  | cons c cs ih =>
+    unfold U8.encode at ih ⊢
+    rw [List.flatMap_cons, U8.encodeCp_ascii c (h c (by simp)), ih (fun x hx => h x (by simp [hx]))]
+    rfl
+
+theorem toUInt8_eq_37 (c : Nat) (h : c < 256) : (c.toUInt8 == 37) = (c == 37) := by
+  rw [Bool.eq_iff_iff]
+  simp only [beq_iff_eq]
+  constructor
+  · intro e
+    have := congrArg UInt8.toNat e
+    rw [U8.toNat_toUInt8 _ h] at this
+    exact this
+  · intro e; subst e; rfl
+
+theorem splitPctS_ne_nil (s : Str) : splitPctS s ≠ [] := by
+  cases s with
+  | nil => simp [splitPctS]
+  | cons c rest =>
+    simp only [splitPctS]
+    split
+    · simp
+    · split <;> simp
+
+/-- `s.encode().split(b'%')` = `s.split('%')` token by token, for an ASCII string -/
+theorem splitPct_map (s : Str) (h : ∀ c ∈ s, c < 0x80) :
+    Probe.splitPct (s.map Nat.toUInt8) = (splitPctS s).map (·.map Nat.toUInt8) := by
+  induction s with
+  | nil => rfl
+  | cons c cs ih =>
+    have ih := ih (fun x hx => h x (by simp [hx]))
+    have hc := h c (by simp)
+    rw [List.map_cons, Probe.splitPct, splitPctS, toUInt8_eq_37 c (by omega), ih]
+    by_cases e : (c == 37) = true
+    · simp [e]
+    · have e' : (c == 37) = false := by simpa using e
+      simp only [e', Bool.false_eq_true, ↓reduceIte]
+      cases hs : splitPctS cs with
+      | nil => exact absurd hs (splitPctS_ne_nil cs)
+      | cons t ts => simp
+
+theorem splitPctS_ascii (s : Str) (h : ∀ c ∈ s, c < 0x80) : ∀ t ∈ splitPctS s, ∀ c ∈ t, c < 0x80 := by
+  induction s with
+  | nil => intro t ht; simp [splitPctS] at ht; subst ht; simp
+  | cons c cs ih =>
+    have ih := ih (fun x hx => h x (by simp [hx]))
+    have hc := h c (by simp)
+    intro t ht
+    rw [splitPctS] at ht
+    split at ht
+    · rcases List.mem_cons.mp ht with rfl | ht
+      · simp
+      · exact ih t ht
+    · cases hs : splitPctS cs with
+      | nil => exact absurd hs (splitPctS_ne_nil cs)
+      | cons t0 ts =>
+        rw [hs] at ht ih
+        simp only [List.mem_cons] at ht
+        rcases ht with rfl | ht
+        · intro x hx
+          rcases List.mem_cons.mp hx with rfl | hx
+          · exact hc
+          · exact ih t0 (by simp) x hx
+        · exact ih t (by simp [ht])
+
+theorem tokOk_map (t : Str) (h : ∀ c ∈ t, c < 0x80) : Uri.tokOk (t.map Nat.toUInt8) = tokOkS t := by
+  match t, h with
+  | [], _ => rfl
+  | [a], _ => rfl
+  | a :: b :: r, h =>
+    have ha := h a (by simp)
+    have hb := h b (by simp)
+    simp only [List.map_cons, Uri.tokOk, tokOkS, isHexCp]
+    have : decide (a < 256) = true := by simp; omega
+    have : decide (b < 256) = true := by simp; omega
+    simp [*]
+
+theorem allowedCp_or_pct (allowed : UInt8 → Bool) (c : Nat) :
+    (allowedCp allowed c || c == 37) = allowedCp (fun b => allowed b || b == 37) c := by
+  unfold allowedCp
+  by_cases h : c < 256
+  · have : decide (c < 256) = true := by simpa using h
+    rw [this, Bool.true_and, Bool.true_and]
+    show _ = (allowed c.toUInt8 || c.toUInt8 == 37)
+    rw [toUInt8_eq_37 c h]
+  · have : decide (c < 256) = false := by simpa using h
+    rw [this, Bool.false_and, Bool.false_and, Bool.false_or]
+    rw [beq_eq_false_iff_ne]; omega
+
+/-- the str-level "already escaped?" heuristic = the byte-level one on `s.encode()` -/
+theorem looksEscapedS_eq (allowed : UInt8 → Bool) (hascii : ∀ b, allowed b = true → b.toNat < 0x80) (s : Str) (hv : ValidStr s) :
+    looksEscapedS allowed s = Uri.looksEscaped allowed (U8.encode s) := by
+  unfold looksEscapedS Uri.looksEscaped
+  have hascii' : ∀ b, (allowed b || b == 37) = true → b.toNat < 0x80 := by
+    intro b hb
+    rcases Bool.or_eq_true_iff.mp hb with h | h
+    · exact hascii b h
+    · have : b = 37 := by simpa using h
+      subst this; decide
+  have h1 : s.all (fun c => allowedCp allowed c || c == 37) = (U8.encode s).all (fun c => allowed c || c == 37) := by
+    rw [← all_allowedCp _ hascii' s hv]
+    congr 1
+    funext c
+    exact allowedCp_or_pct allowed c
+  rw [← h1]
+  by_cases hall : s.all (fun c => allowedCp allowed c || c == 37) = true
+  · rw [hall, Bool.true_and, Bool.true_and]
+    have hs : ∀ c ∈ s, c < 0x80 := by
+      apply ascii_of_all_allowedCp _ hascii' s
+      rw [← hall]; congr 1; funext c; exact (allowedCp_or_pct allowed c).symm
+    rw [encode_ascii s hs, splitPct_map s hs, ← List.map_tail, List.all_map]
+    have hta := splitPctS_ascii s hs
+    rw [List.all_eq, List.all_eq]
+    apply decide_eq_decide.mpr
+    constructor
+    · intro hh t ht
+      show Uri.tokOk (t.map Nat.toUInt8) = true
+      rw [tokOk_map t (hta t (List.mem_of_mem_tail ht))]
+      exact hh t ht
+    · intro hh t ht
+      have := hh t ht
+      change Uri.tokOk (t.map Nat.toUInt8) = true at this
+      rwa [tokOk_map t (hta t (List.mem_of_mem_tail ht))] at this
+  · have : s.all (fun c => allowedCp allowed c || c == 37) = false := by simpa using hall
+    rw [this, Bool.false_and, Bool.false_and]
+
+theorem ascii_of_looksEscapedS (allowed : UInt8 → Bool) (hascii : ∀ b, allowed b = true → b.toNat < 0x80) (s : Str)
+    (h : looksEscapedS allowed s = true) : ∀ c ∈ s, c < 0x80 := by
+  unfold looksEscapedS at h
+  rw [Bool.and_eq_true] at h
+  have hascii' : ∀ b, (allowed b || b == 37) = true → b.toNat < 0x80 := by
+    intro b hb
+    rcases Bool.or_eq_true_iff.mp hb with h | h
+    · exact hascii b h
+    · have : b = 37 := by simpa using h
+      subst this; decide
+  apply ascii_of_all_allowedCp _ hascii' s
+  rw [← h.1]; congr 1; funext c; exact (allowedCp_or_pct allowed c).symm
+
+/-- **refinement**: the str-level check-escaped encoder = the byte-level one on `s.encode()`, read as ASCII characters -/
+theorem encodeCheckStr_eq_bytes (allowed : UInt8 → Bool) (hascii : ∀ b, allowed b = true → b.toNat < 0x80) (s : Str) (hv : ValidStr s) :
+    encodeCheckStr allowed s = (Uri.encodeCheck allowed (U8.encode s)).map (·.toNat) := by
+  unfold encodeCheckStr Uri.encodeCheck
+  rw [← all_allowedCp allowed hascii s hv, ← looksEscapedS_eq allowed hascii s hv]
+  split
+  · rename_i hall
+    exact (map_toNat_encode_ascii s (ascii_of_all_allowedCp allowed hascii s hall)).symm
+  · split
+    · rename_i hl
+      exact (map_toNat_encode_ascii s (ascii_of_looksEscapedS allowed hascii s hl)).symm
+    · rfl
+
+/-- the output of a byte-level check-escaped encoder is ASCII -/
+theorem encodeCheck_ascii (allowed : UInt8 → Bool) (hascii : ∀ b, allowed b = true → b.toNat < 0x80) (bs : List UInt8) :
+    ∀ b ∈ Uri.encodeCheck allowed bs, b.toNat < 0x80 := by
+  intro b hb
+  unfold Uri.encodeCheck at hb
+  split at hb
+  · rename_i hall
+    exact hascii b (List.all_eq_true.mp hall b hb)
+  · split at hb
+    · rename_i hl
+      unfold Uri.looksEscaped at hl
+      rw [Bool.and_eq_true] at hl
+      have := List.all_eq_true.mp hl.1 b hb
+      rcases Bool.or_eq_true_iff.mp this with h | h
+      · exact hascii b h
+      · have : b = 37 := by simpa using h
+        subst this; decide
+    · obtain ⟨x, _, hx⟩ := List.mem_flatMap.mp hb
+      rcases Uri.encByte_charset allowed x b hx with h | h | h
+      · exact hascii b h
+      · subst h; decide
+      · unfold Uri.upperHex at h
+        simp only [Bool.or_eq_true, Bool.and_eq_true, decide_eq_true_eq] at h
+        omega
+
+theorem encode_encodeCheckStr (allowed : UInt8 → Bool) (hascii : ∀ b, allowed b = true → b.toNat < 0x80) (s : Str) (hv : ValidStr s) :
+    U8.encode (encodeCheckStr allowed s) = Uri.encodeCheck allowed (U8.encode s) := by
+  rw [encodeCheckStr_eq_bytes allowed hascii s hv]
+  exact U8.encode_map_toNat _ (encodeCheck_ascii allowed hascii _)
+
+theorem validStr_encodeCheckStr (allowed : UInt8 → Bool) (hascii : ∀ b, allowed b = true → b.toNat < 0x80) (s : Str) (hv : ValidStr s) :
+    ValidStr (encodeCheckStr allowed s) := by
+  apply validStr_of_ascii
+  intro c hc
+  rw [encodeCheckStr_eq_bytes allowed hascii s hv] at hc
+  obtain ⟨b, hb, rfl⟩ := List.mem_map.mp hc
+  exact encodeCheck_ascii allowed hascii _ b hb
+
+/-- **str-level idempotence** of the check-escaped encoders -/
+theorem encodeCheckStr_idem (allowed : UInt8 → Bool) (h37 : allowed 37 = false) (hhex : ∀ c, Uri.isHex c = true → allowed c = true)
+    (hascii : ∀ b, allowed b = true → b.toNat < 0x80) (s : Str) (hv : ValidStr s) :
+    encodeCheckStr allowed (encodeCheckStr allowed s) = encodeCheckStr allowed s := by
+  rw [encodeCheckStr_eq_bytes allowed hascii _ (validStr_encodeCheckStr allowed hascii s hv),
+    encode_encodeCheckStr allowed hascii s hv, Uri.encodeCheck_idem h37 hhex, ← encodeCheckStr_eq_bytes allowed hascii s hv]
+
+/-- **str-level fixpoint**: a string whose UTF-8 bytes are `( allowed | % HEXDIG HEXDIG )*` (hence ASCII) is returned unchanged -/
+theorem encodeCheckStr_fixpoint (allowed : UInt8 → Bool) (hhex : ∀ c, Uri.isHex c = true → allowed c = true)
+    (hascii : ∀ b, allowed b = true → b.toNat < 0x80) (s : Str) (hv : ValidStr s)
+    (he : Uri.escaped allowed (U8.encode s) = true) : encodeCheckStr allowed s = s := by
+  have hl := Uri.escaped_looksEscaped hhex _ he
+  rw [← looksEscapedS_eq allowed hascii s hv] at hl
+  unfold encodeCheckStr
+  rw [if_pos hl]
+  split <;> rfl
+
+theorem encodeCheckEscaped_idem (s : Str) (hv : ValidStr s) : encodeCheckEscaped (encodeCheckEscaped s) = encodeCheckEscaped s :=
+  encodeCheckStr_idem _ Uri.allowedUri_pct Uri.hex_allowedUri allowedUri_ascii s hv
+theorem encodeValueCheckEscaped_idem (s : Str) (hv : ValidStr s) :
+    encodeValueCheckEscaped (encodeValueCheckEscaped s) = encodeValueCheckEscaped s :=
+  encodeCheckStr_idem _ Uri.allowedValue_pct Uri.hex_allowedValue allowedValue_ascii s hv
+theorem encodeCheckEscaped_fixpoint (s : Str) (hv : ValidStr s) (he : Uri.escaped Uri.allowedUri (U8.encode s) = true) :
+    encodeCheckEscaped s = s := encodeCheckStr_fixpoint _ Uri.hex_allowedUri allowedUri_ascii s hv he
+theorem encodeValueCheckEscaped_fixpoint (s : Str) (hv : ValidStr s) (he : Uri.escaped Uri.allowedValue (U8.encode s) = true) :
+    encodeValueCheckEscaped s = s := encodeCheckStr_fixpoint _ Uri.hex_allowedValue allowedValue_ascii s hv he
+example : Uri.escaped Uri.allowedValue (U8.encode [37, 99, 51, 37, 65, 57, 97]) = true := by decide
+example : encodeValueCheckEscaped [37, 71, 49, 233] = [37, 50, 53, 71, 49, 37, 67, 51, 37, 65, 57] := by decide
 end Us
